@@ -6,6 +6,8 @@ import ScyllaVerif.Proofs.Conn
 import ScyllaVerif.Proofs.FrameStream
 import ScyllaVerif.Model.ConnIO
 import ScyllaVerif.Proofs.ConnIO
+import ScyllaVerif.Model.Pool
+import ScyllaVerif.Proofs.Pool
 /-!
 # C10 — when a connection dies every request in flight on it fails promptly; none hangs
 
@@ -578,5 +580,72 @@ example :
     let k2 := kaTurn { k1 with c := run k1.c [.writerTake], clock := 1300 }
     k1.pending = some (1, 1300) ∧ k2.c.cause = some .keepaliveTimeout ∧
       getCaller k2.c.callers 0 = some (.delivered (.err (.broken .keepaliveTimeout))) := by decide +kernel
+
+/-! ## 7. the pool keeps working through the remaining connections (`Model/Pool.lean`) -/
+
+section pool
+open ScyllaVerif.Pool
+
+/-- `remove_connection` publishes: after the refiller has processed a death the published list IS its private
+list — whether or not other connections survive. -/
+theorem remove_publishes (p : Pool) (id : Nat) (h : PInv p) :
+    (Pool.step p (.process id)).shared = (Pool.step p (.process id)).conns :=
+  (h.step _).pub
+
+/-- After any sequence of openings, refused openings, connection deaths and refiller steps: every PUBLISHED
+connection is alive, or its death has not been processed yet. -/
+theorem published_alive_or_pending (evs : List PEv) (id : Nat)
+    (hp : id ∈ (Pool.run Pool.init evs).shared) :
+    id ∉ (Pool.run Pool.init evs).dead ∨ id ∈ (Pool.run Pool.init evs).pending := by
+  have h := PInv.init.run evs
+  rw [h.pub] at hp
+  by_cases hd : id ∈ (Pool.run Pool.init evs).dead
+  · exact Or.inr (h.deadPending id hp hd)
+  · exact Or.inl hd
+
+/-- Once its death is processed a connection is not offered any more — now … -/
+theorem processed_not_offered (p : Pool) (id : Nat) (hpend : id ∈ p.pending) :
+    id ∉ (Pool.step p (.process id)).shared := by
+  have hc : p.pending.contains id = true := by simpa using hpend
+  simp only [Pool.step, hc, if_true]
+  intro hm
+  have := (List.mem_filter.mp hm).2
+  simp at this
+
+/-- … and never again (ids are not reused): in every later state a dead connection that is not pending is not
+published. -/
+theorem dead_processed_never_offered (evs : List PEv) (id : Nat)
+    (hd : id ∈ (Pool.run Pool.init evs).dead) (hnp : id ∉ (Pool.run Pool.init evs).pending) :
+    id ∉ (Pool.run Pool.init evs).shared := by
+  intro hp
+  rcases published_alive_or_pending evs id hp with h | h
+  · exact h hd
+  · exact hnp h
+
+/-- With no death left to process, routing only ever sees live connections, and sees one as soon as the refiller
+holds one: "the session keeps working through the remaining connections". -/
+theorem quiescent_pool_offers_exactly_the_live (evs : List PEv) (hq : (Pool.run Pool.init evs).pending = []) :
+    (∀ id, id ∈ (Pool.run Pool.init evs).shared → id ∉ (Pool.run Pool.init evs).dead) ∧
+    (Pool.run Pool.init evs).shared = (Pool.run Pool.init evs).conns := by
+  refine ⟨?_, (PInv.init.run evs).pub⟩
+  intro id hp
+  rcases published_alive_or_pending evs id hp with h | h
+  · exact h
+  · rw [hq] at h; cases h
+
+/-- non-vacuity: three connections, the second dies and is processed while the node refuses new ones: connections 0
+and 2 stay published, 1 is gone. -/
+example :
+    let p := Pool.run Pool.init [.opened, .opened, .opened, .die 1, .openFailed, .process 1, .openFailed]
+    p.shared = [0, 2] ∧ p.dead = [1] ∧ p.pending = [] := by decide
+
+/-- Counterexample OF A DEFECTIVE REFILLER (`stepStale`: publish only when the pool became empty — documentation of
+what this layer and the `pool` cases guard against, not a statement about the current code): the dead connection 1
+is still offered after its death has been processed although 0 and 2 are alive. -/
+example :
+    let p := [PEv.opened, .opened, .opened, .die 1, .process 1].foldl stepStale Pool.init
+    1 ∈ p.shared ∧ 1 ∈ p.dead ∧ p.pending = [] ∧ p.conns = [0, 2] := by decide
+
+end pool
 
 end ScyllaVerif.Props.C10
